@@ -12,6 +12,7 @@ import (
 	"path/filepath"
 	"sort"
 	"strings"
+	"time"
 
 	"pgregory.net/rapid"
 )
@@ -401,6 +402,18 @@ func judgeC17(c *Ctx, sc *Scenario) *Violation {
 				}
 				break
 			}
+		}
+		// check the index out and make its cached stat data stale: any git
+		// command that refreshes the index (git status, diff, ...) would rewrite it
+		if _, err := site.Git(nil, "checkout-index", "-a", "-f"); err == nil {
+			old := time.Unix(1_200_000_000, 0)
+			filepath.WalkDir(site.WorkDir, func(p string, d fs.DirEntry, err error) error {
+				if err == nil && !d.IsDir() && !strings.Contains(p, string(filepath.Separator)+".git"+string(filepath.Separator)) {
+					os.Chtimes(p, old, old)
+				}
+				return nil
+			})
+			c.Stats.Probe("work-tree-checked-out-with-stale-index")
 		}
 		os.WriteFile(filepath.Join(site.WorkDir, "untracked.txt"), []byte("untracked\n"), 0o644)
 		os.WriteFile(filepath.Join(site.WorkDir, "sub", "dir", "file"), []byte("x\n"), 0o644)
